@@ -233,7 +233,7 @@ class Monitor:
         if kf is not None:
             ent = self.known.setdefault(kf["id"], {"what": kf["what"], "count": 0, "first": _shorten(witness)})
             ent["count"] += 1
-            raise CaseAbort()
+            return  # a listed finding neither fails the run nor ends the case: the rest of the case is still monitored
         self.violations.append(witness)
         if len(self.violations) >= self.MAX_VIOLATIONS:
             raise StopRun()
